@@ -87,9 +87,9 @@ BROKER['C03'] = ('Decoder.Read depends on the byte stream only, never on how it 
                  'transport WebSocket/TCP connections are compared with the model on every 2-/3-way split of short streams, random chunkings, truncations, limits, garbage, encoder scripts and real loopback pairs. Partial: ws_stitch holds under gorilla\'s reader contract (EOF arrives alone); the unrestricted statement is refuted by a latent (n>0, EOF) case that gorilla over TCP never produces.',
                  'Lean 4 proof (chunk-invariance and round-trip by induction over chunk lists / event lists) + differential correspondence')
 BROKER['C09'] = ('Stored-before-sent, kept-until-acknowledged, PUBREC replaces by PUBREL, retransmission of exactly the stored list in store order with DUP on the next connect, futures complete only inside the acknowledgement handler for their id '
-                 '(QoS 0: after the send), no pending future once the client is disconnected with no call in progress and no processor (proves that re-checking the state after Put closes the race with cleanup), Close/Disconnect never block, accessors never panic: '
+                 '(QoS 0: after the send), a request takes a packet id under which no outgoing packet is stored (fresh_id_unused; the allocation loop is MemorySession.freshID and fails only with 65535 stored packets), no pending future once the client is disconnected with no call in progress and no processor (proves that re-checking the state after Put closes the race with cleanup), Close/Disconnect never block, accessors never panic: '
                  'Lean theorems over every step sequence of the client LTS (API calls split into their statements so that the unlocked processor cleanup can fall between any two). The real client.Client runs against a scripted broker over Config.Dialer inside a '
-                 'testing/synctest bubble with a wrapping session that can fail or park every operation. Partial: all_resolved_at_end is proved without the keep-alive pinger; the unrestricted statement is refuted by a pinger/CONNACK interleaving at model level that could not be forced on the real code.',
+                 'testing/synctest bubble with a wrapping session that can fail or park every operation, including one full packet-id wrap-around (65535 acknowledged publishes against one withheld acknowledgement). Partial: all_resolved_at_end is proved without the keep-alive pinger; the unrestricted statement is refuted by a pinger/CONNACK interleaving at model level that could not be forced on the real code.',
                  'Lean 4 proof (invariants over every step sequence of an LTS at statement granularity) + trace conformance')
 BROKER['C10'] = ('PUBREC for every QoS 2 PUBLISH, PUBCOMP for every PUBREL (unknown ids included), QoS 0/1 passed on in arrival order with PUBACK after the callback, callback error => no acknowledgement and connection closed, and exactly one callback per QoS 2 handshake '
                  'for client || well-behaved broker over all reachable states (lost acknowledgements, duplicated PUBLISH, repeated PUBREL, interleaved ids and reconnects unconstrained): Lean theorems. Broker scripts with send failures at every acknowledgement and both callback modes '
